@@ -1677,6 +1677,9 @@ class Engine:
             if nested is not None:
                 return self.exec_for(nested, env)
         it = self.eval_iter(s.iter, env)
+        if isinstance(it, VRange) and self.loop_spec(s)[1] is None and all(isinstance(x, int) for x in (it.lo, it.hi, it.step)) and it.step != 0 \
+                and len(range(it.lo, it.hi, it.step)) <= 8:
+            it = VTuple(list(range(it.lo, it.hi, it.step)), 'list')        # a short concrete range without a loop contract: unrolled
         if isinstance(it, VTuple):                       # concrete: unroll
             k, spec = self.loop_spec(s)
             broke = False
@@ -3826,7 +3829,23 @@ def sf_mapcall(eng, node, g, n, m, index):
     raise SpecError('mapcall: both components are None')
 
 
+def sf_blockcall(eng, node, off, n2, index):
+    """the value of a block call x(*index) for a block of one or two dimensions (row-major, 1-based): x(i) = off + i,
+    x(i, c) = off + (i-1)*n2 + c, x(i, None) = the n2 identifiers of row i in order"""
+    if not isinstance(index, VTuple) or len(index.items) not in (1, 2) or index.items[0] is None:
+        raise SpecError('blockcall: index shape')
+    i = toz(index.items[0])
+    if len(index.items) == 1:
+        return toz(off) + i
+    c = index.items[1]
+    base = toz(off) + (i - 1) * toz(n2)
+    if c is None:
+        return VSeq(specs.apseq(z3.simplify(base + 1), toz(n2)))
+    return z3.simplify(base + toz(c))
+
+
 SPEC_FUNCS = {
+    'blockcall': sf_blockcall,
     'combs2': lambda eng, node, lo, hi: VCombs2(toz(lo), toz(hi)), 'cvar': _wrap(specs.cvar), 'degsum': _wrap(specs.degsum), 'gadj': _wrap(specs.gadj), 'pvar': _wrap(specs.pvar), 'isqf': _wrap(specs.isqf), 'pairlits': _wrap(specs.pairlits), 'aps': _wrap(specs.aps), 'sqr': _wrap(specs.sqr), 'mhas': lambda eng, node, m, k: z3.Select(m.present, _term(k)), 'mget': lambda eng, node, m, k: z3.Select(m.val, _term(k)), 'glo': lambda eng, node, g, i: z3.Select(g.lo, toz(i)), 'ghi': lambda eng, node, g, i: z3.Select(g.hi, toz(i)),
     'gsingle': lambda eng, node, g, i: z3.Select(g.single, toz(i)), 'cnb': _wrap(specs.cnb), 'isorted': _wrap(specs.isorted), 'nbj': _wrap(specs.nbj), 'nbv': _wrap(specs.nbv), 'lnbrs': _wrap(specs.lnbrs),
     'mapcall': sf_mapcall, 'mrow': _wrap(specs.mrow), 'mcol': _wrap(specs.mcol),
